@@ -16,7 +16,7 @@ CONSTANTS
   BodyPre <- T_BodyPre
   WinName <- T_WinName
   Dev <- DevIdeal
-  MaxOv = 2
+  MaxOv = 1
   Bases <- BasesQ
   PoolJ <- PoolJ_Q
   PoolD <- PoolD_Q
